@@ -463,9 +463,11 @@ class LintFileMonoStream(LintFileStream):
         return impl_out if any(len(r["b"]["F"][c]) > len(r["a"]["F"][c]) for c in FCATS) else None
 
 
+import c13t2      # noqa: E402  (needs the classes above)
+
 PROPERTY = Property(
     pid="C13",
-    streams=[FormatsStream(), LintFileStream(), LintFileMonoStream(), LintFileE2EStream()],
+    streams=[FormatsStream(), LintFileStream(), LintFileMonoStream(), LintFileE2EStream()] + c13t2.STREAMS,
     table_roundtrip=rc.table_roundtrip,
     assumptions=[
         "stream lintfile-e2e: the composed model (Model/SpdxE2E.lean) receives the tree itself, the working directory and the FILE arguments "
